@@ -7,8 +7,12 @@
      break / continue / failure handlers / scopes), _start_flow, _abort_flow, _finish_flow,
      _resolve_action_conflicts, and the incrementally maintained dispatch index
      (event_matching_heads + reverse map) with the head position / status callbacks.
-   NOT yet modelled (programs using them are outside the fragment): actions, activation / restart,
-   flow parameters, priority statements, named loops, explicit FinishFlow / StopFlow events, ageing.
+   Slice 2 adds actions: _new_action_instance, `send $ref.Start()`, `match $ref.Finished()/Started()`,
+   Action.process_event (status / flow_scope_count), Stop events when a flow ends or a scope is closed,
+   sharing of identical actions between co-winners, external <Action>Started / <Action>Finished events,
+   and the removal of unreferenced actions at the start of every run.
+   NOT yet modelled (programs using them are outside the fragment): activation / restart, flow
+   parameters, priority statements, named loops, explicit FinishFlow / StopFlow events, ageing.
 
    The program is the REAL compiler output (FlowConfig.elements exported as JSON by
    harness/colang2.export_sm): P below.  One TLA+ step = one run_to_completion call (macro step),
@@ -40,7 +44,7 @@ LabelPos(fid, l) == Cfg(fid).label_pos[CHOOSE k \in 1..Len(Cfg(fid).label_names)
 InternalNames == {"StartFlow", "FinishFlow", "StopFlow", "FlowStarted", "FlowFinished", "FlowFailed", "UnhandledEvent",
                   "BotIntentLog", "UserIntentLog", "BotActionLog", "UserActionLog"}
 IsMatchEl(e)  == e.k = "match"
-IsActionEl(e) == e.k = "send" /\ e.name \notin InternalNames /\ e.var = ""     \* is_action_op_element (slice 1: bare events)
+IsActionEl(e) == e.k = "send" /\ e.name \notin InternalNames                  \* is_action_op_element
 
 (* ------------------------------------------------------------------ scores: 0.9^e * pn/pd *)
 One == <<0, 1, 1>>
@@ -133,26 +137,68 @@ ArgUpdate(a, b) == IF b = <<>> THEN a ELSE ArgUpdate(ArgSet(a, b[1][1], b[1][2])
 
 (* ------------------------------------------------------------------ events *)
 (* [name, args (seq of <<key, value>>), scores, cls ("E" plain | "I" internal | "A" action), src (instance that sent it or 0)] *)
-Ev(name, args, scores, cls, src) == [name |-> name, args |-> args, scores |-> scores, cls |-> cls, src |-> src]
+Ev(name, args, scores, cls, src) == [name |-> name, args |-> args, scores |-> scores, cls |-> cls, src |-> src, act |-> 0]
 OutArgs(S, k) == << <<"source_flow_instance_uid", <<"uid", Fl(S, k).uid>>>>, <<"flow_instance_uid", <<"uid", Fl(S, k).uid>>>>,
                     <<"flow_id", <<"s", Fl(S, k).fid>>>> >>
 FlowEvent(S, k, name, scores) ==       \* FlowState._create_out_event (flow arguments: none in slice 1)
   Ev(name, IF name = "FlowFinished" /\ HasVar(Fl(S, k), "_return_value")
              THEN Append(OutArgs(S, k), <<"return_value", Var(Fl(S, k), "_return_value")>>) ELSE OutArgs(S, k), scores, "I", k)
 
-(* the reference event of a match / send element (get_event_from_element), slice 1 *)
-RefEvent(S, k, el) ==
-  IF el.var # "" THEN                                   \* case 1: $ref.Finished() on a flow reference
-     (IF HasVar(Fl(S, k), el.var) /\ Var(Fl(S, k), el.var)[1] = "flow"
-        THEN LET t == Var(Fl(S, k), el.var)[2]
-                 nm == CASE el.member = "Finished" -> "FlowFinished" [] el.member = "Failed" -> "FlowFailed"
+(* actions: S.actions[a] = [name, args, status, scope (flow_scope_count)]; a removed action keeps its slot as "DELETED" *)
+Act(S, a) == S.actions[a]
+ActEventArgs(S, a, margs) ==      \* Action.started_event / finished_event: member arguments + action_arguments (if any)
+  IF Act(S, a).args # <<>> THEN ArgSet(margs, "action_arguments", <<"dict", Act(S, a).args>>) ELSE margs
+(* Action.process_event for the action with index a *)
+ProcessActionEvent(S, a, evname) ==
+  LET kind == IF evname = Act(S, a).name \o "Started" THEN "Started" ELSE IF evname = Act(S, a).name \o "Finished" THEN "Finished"
+              ELSE IF evname = "Start" \o Act(S, a).name THEN "Start" ELSE IF evname = "Stop" \o Act(S, a).name THEN "Stop" ELSE "" IN
+  CASE kind = "Started"  -> [S EXCEPT !.actions[a].status = "STARTED"]
+    [] kind = "Finished" -> [S EXCEPT !.actions[a].status = "FINISHED", !.actions[a].scope = 0]
+    [] kind = "Start"    -> [S EXCEPT !.actions[a].status = "STARTING", !.actions[a].scope = 1]
+    [] kind = "Stop"     -> [S EXCEPT !.actions[a].status = "STOPPING"]
+    [] OTHER -> S
+(* _update_action_status_by_event: only actions listed by a listening flow, not yet FINISHED *)
+UpdateActionStatus(S, a, evname) ==
+  IF a \in 1..Len(S.actions) /\ Act(S, a).status \notin {"FINISHED", "DELETED"}
+     /\ \E k \in 1..Len(S.flows) : Listening(S.flows[k]) /\ a \in Range(S.flows[k].actions)
+    THEN ProcessActionEvent(S, a, evname) ELSE S
+(* Stop an action of an ending flow / closing scope: decrement the share count, Stop event when it reaches 0 *)
+ReleaseAction(S, a) ==
+  IF Act(S, a).status \in {"STARTING", "STARTED"}
+    THEN LET S1 == [S EXCEPT !.actions[a].scope = @ - 1] IN
+         IF Act(S1, a).scope = 0
+           THEN LET S2 == [S1 EXCEPT !.actions[a].status = "STOPPING",
+                                     !.out = Append(@, [name |-> "Stop" \o Act(S1, a).name, args |-> <<>>, act |-> a])]
+                IN UpdateActionStatus(S2, a, "Stop" \o Act(S1, a).name)
+           ELSE S1
+    ELSE S
+RECURSIVE ReleaseActions(_, _)
+ReleaseActions(S, as) == IF as = <<>> THEN S ELSE ReleaseActions(ReleaseAction(S, Head(as)), Tail(as))
+
+(* the reference event of a match / send element (get_event_from_element) *)
+MemberEventName(el) == CASE el.member = "Finished" -> "FlowFinished" [] el.member = "Failed" -> "FlowFailed"
                          [] el.member = "Started" -> "FlowStarted" [] OTHER -> "?"
-             IN [ok |-> nm # "?", ev |-> [FlowEvent(S, t, nm, <<>>) EXCEPT !.args = ArgUpdate(@, EvalArgs(S, k, el.margs))], flow |-> t]
-        ELSE [ok |-> FALSE, ev |-> Ev("?", <<>>, <<>>, "E", 0), flow |-> 0])
-  ELSE LET cls == IF el.name \in InternalNames THEN "I" ELSE "E" IN    \* case 3: bare event (slice 1: no *Action* names)
-       [ok |-> ArgsOk(S, k, el.args), ev |-> Ev(el.name, EvalArgs(S, k, el.args), <<>>, cls, 0), flow |-> 0]
+RefEvent(S, k, el) ==
+  IF el.var # "" THEN
+     (IF HasVar(Fl(S, k), el.var) /\ Var(Fl(S, k), el.var)[1] = "flow"        \* case 1: $ref.Finished() on a flow reference
+        THEN LET t == Var(Fl(S, k), el.var)[2]
+                 nm == MemberEventName(el)
+             IN [ok |-> nm # "?", ev |-> [FlowEvent(S, t, nm, <<>>) EXCEPT !.args = ArgUpdate(@, EvalArgs(S, k, el.margs))], flow |-> t, act |-> 0]
+      ELSE IF HasVar(Fl(S, k), el.var) /\ Var(Fl(S, k), el.var)[1] = "act"    \* case 1: action reference
+        THEN LET a == Var(Fl(S, k), el.var)[2]
+                 nm == IF el.member \in {"Start", "Stop"} THEN el.member \o Act(S, a).name ELSE Act(S, a).name \o el.member
+                 ar == IF el.member = "Start" THEN Act(S, a).args ELSE IF el.member = "Stop" THEN <<>> ELSE ActEventArgs(S, a, EvalArgs(S, k, el.margs))
+             IN [ok |-> el.member \in {"Start", "Stop", "Started", "Finished"} /\ ArgsOk(S, k, el.margs),
+                 ev |-> Ev(nm, ar, <<>>, "A", 0), flow |-> 0, act |-> a]
+      ELSE [ok |-> FALSE, ev |-> Ev("?", <<>>, <<>>, "E", 0), flow |-> 0, act |-> 0])
+  ELSE LET cls == IF el.name \in InternalNames THEN "I" ELSE "E" IN    \* case 3: bare event (generated programs use no bare *Action* names)
+       [ok |-> ArgsOk(S, k, el.args), ev |-> Ev(el.name, EvalArgs(S, k, el.args), <<>>, cls, 0), flow |-> 0, act |-> 0]
 RefEventName(S, k, el) ==    \* get_event_name_from_element
-  IF el.var # "" THEN (IF el.member = "Finished" THEN "FlowFinished" ELSE IF el.member = "Failed" THEN "FlowFailed" ELSE "FlowStarted")
+  IF el.var # "" THEN
+     (IF HasVar(Fl(S, k), el.var) /\ Var(Fl(S, k), el.var)[1] = "act"
+        THEN LET a == Var(Fl(S, k), el.var)[2] IN
+             IF el.member \in {"Start", "Stop"} THEN el.member \o Act(S, a).name ELSE Act(S, a).name \o el.member
+        ELSE MemberEventName(el))
   ELSE el.name
 
 (* ------------------------------------------------------------------ dispatch index *)
@@ -212,8 +258,11 @@ MatchScore(S, k, hid, event) ==
                   ELSE IF ref.name # event.name THEN [kind |-> "zero", score |-> One]
                   ELSE [kind |-> "pos", score |-> a[2]])
      ELSE IF ref.name # event.name THEN [kind |-> "zero", score |-> One]
-     ELSE LET a == ArgsScore(event.args, ref.args) IN
-          IF a[1] THEN [kind |-> "pos", score |-> a[2]] ELSE [kind |-> "zero", score |-> One]
+     ELSE IF event.cls = "A" /\ ref.cls = "A" /\ rr.act # 0 /\ rr.act # event.act THEN [kind |-> "zero", score |-> One]   \* another instance
+     ELSE LET eargs == IF event.cls = "A" /\ ref.cls = "A" /\ event.act \in 1..Len(S.actions) /\ Act(S, event.act).status # "DELETED"
+                         THEN ArgSet(event.args, "action_arguments", <<"dict", Act(S, event.act).args>>) ELSE event.args
+              a == ArgsScore(eargs, ref.args)
+          IN IF a[1] THEN [kind |-> "pos", score |-> a[2]] ELSE [kind |-> "zero", score |-> One]
 
 (* ------------------------------------------------------------------ flow life cycle *)
 NewHead(hid, pos, scores, catch, scopes) ==
@@ -241,7 +290,7 @@ AbortChildren(S, k, kids, scores) ==
 AbortFlow(S, k, scores) ==
   LET f == Fl(S, k) IN
   IF ~Listening(f) /\ f.status # "STOPPING" THEN S
-  ELSE LET S1 == AbortChildren(S, k, f.children, scores)           \* list(child_flow_uids): a copy taken before
+  ELSE LET S1 == ReleaseActions(AbortChildren(S, k, f.children, scores), f.actions)    \* list(child_flow_uids): a copy taken before
            S2 == ClearHeads(S1, k)
            S3 == RemoveFromParent(S2, k)
            S4 == [S3 EXCEPT !.flows[k].status = "STOPPED"]
@@ -249,7 +298,7 @@ AbortFlow(S, k, scores) ==
 FinishFlow(S, k, scores) ==
   LET f == Fl(S, k) IN
   IF ~Listening(f) THEN S
-  ELSE LET S1 == AbortChildren(S, k, f.children, scores)
+  ELSE LET S1 == ReleaseActions(AbortChildren(S, k, f.children, scores), f.actions)
            S2 == ClearHeads(S1, k)
        IN IF f.fid = "main"
             THEN LET hid == Fl(S2, k).nexthid
@@ -314,6 +363,14 @@ Slide(S, k, hid, fuel) ==
                         a1 == IF e.name = "StartFlow" THEN ArgSet(a0, "flow_hierarchy_position", <<"hier", Append(f.hier, h.pos)>>) ELSE a0
                         S1 == Push(S, Ev(e.name, a1, h.scores, "I", k))
                     IN Slide(SetPos(S1, k, hid, h.pos + 1), k, hid, fuel - 1))
+         [] e.k = "newaction" ->
+              (IF ~ArgsOk(S, k, e.args) THEN [S |-> S, new |-> <<>>, err |-> TRUE]
+               ELSE LET a  == Len(S.actions) + 1
+                        S1 == [S EXCEPT !.actions = Append(@, [name |-> e.name, args |-> EvalArgs(S, k, e.args), status |-> "INITIALIZED", scope |-> 0]),
+                                        !.flows[k].actions = Append(@, a),
+                                        !.flows[k].scopes = [q \in 1..Len(@) |-> IF @[q][1] \in Range(h.scopes) THEN <<@[q][1], @[q][2], Append(@[q][3], a)>> ELSE @[q]]]
+                        S2 == SetFl(S1, k, SetVar(Fl(S1, k), e.ref, <<"act", a>>))
+                    IN Slide(SetPos(S2, k, hid, h.pos + 1), k, hid, fuel - 1))
          [] e.k = "match" -> [S |-> S, new |-> <<>>, err |-> FALSE]
          [] e.k = "label" -> Slide(SetPos(S, k, hid, h.pos + 1), k, hid, fuel - 1)      \* (start_new_flow_instance: activation, not in slice 1)
          [] e.k = "goto"  ->
@@ -392,7 +449,7 @@ Slide(S, k, hid, fuel) ==
                         StopKids(T, i) == IF i > Len(sc[2]) THEN T
                                           ELSE IF Listening(Fl(T, sc[2][i])) THEN StopKids(AbortFlow(T, sc[2][i], h.scores), i + 1)
                                           ELSE StopKids(T, i + 1)
-                        S2 == StopKids(S1, 1)
+                        S2 == ReleaseActions(StopKids(S1, 1), sc[3])
                         \* remove the scope from all heads of the flow
                         S3 == [S2 EXCEPT !.flows[k].heads = [q \in 1..Len(@) |-> [@[q] EXCEPT !.scopes = SelectSeq(@, LAMBDA s : s # e.label)]]]
                     IN Slide(SetPos(S3, k, hid, Hd(S3, k, hid).pos + 1), k, hid, fuel - 1))
@@ -513,7 +570,8 @@ ProcessEvent(S0, event, actionable) ==
                                  event.scores, "I", 0))
               ELSE sc.S
       sorted == Items(SortPairs([i \in 1..Len(sc.matching) |-> <<sc.matching[i], Hd(S2, sc.matching[i][1], sc.matching[i][2]).scores>>], "nopad"))
-      S3 == HandleMatches(S2, event, sorted)
+      S3a == HandleMatches(S2, event, sorted)
+      S3 == IF event.cls = "A" THEN UpdateActionStatus(S3a, event.act, event.name) ELSE S3a
       fl == FailHeads(S3, sc.failing, sorted)
       adv == AdvanceFront(fl.S, fl.matching)
       RECURSIVE Add(_, _)
@@ -521,9 +579,28 @@ ProcessEvent(S0, event, actionable) ==
   IN [S |-> adv.S, act |-> Add(actionable, 1)]
 
 (* ------------------------------------------------------------------ conflict resolution *)
-SendEvent(S, kh) ==       \* the UMIM event of an actionable (send) element, evaluated
-  LET el == ElAtHead(S, kh[1], kh[2]) IN [name |-> el.name, args |-> EvalArgs(S, kh[1], el.args)]
-Emit(S, kh) == [S EXCEPT !.out = Append(@, SendEvent(S, kh))]      \* _generate_action_event_from_actionable_element (send)
+SendEvent(S, kh) ==       \* the event of an actionable (send) element, evaluated: name + arguments (what is_equal compares)
+  LET el == ElAtHead(S, kh[1], kh[2]) IN
+  IF el.var # "" THEN LET r == RefEvent(S, kh[1], el) IN [name |-> r.ev.name, args |-> r.ev.args]
+  ELSE [name |-> el.name, args |-> EvalArgs(S, kh[1], el.args)]
+SendAct(S, kh) == LET el == ElAtHead(S, kh[1], kh[2]) IN IF el.var # "" THEN RefEvent(S, kh[1], el).act ELSE 0
+Emit(S, kh) ==            \* _generate_action_event_from_actionable_element + _generate_umim_event
+  LET e  == SendEvent(S, kh)
+      a  == SendAct(S, kh)
+      S1 == [S EXCEPT !.out = Append(@, [name |-> e.name, args |-> e.args, act |-> a])]
+  IN IF a # 0 THEN UpdateActionStatus(S1, a, e.name) ELSE S1
+(* a co-winner on the identical action shares the winner's action object *)
+ShareAction(S, kh, winAct) ==
+  LET k == kh[1]
+      a == SendAct(S, kh)
+  IN IF a = 0 \/ winAct = 0 \/ a = winAct THEN S
+     ELSE LET f   == Fl(S, k)
+              n   == Cardinality({v \in DOMAIN f.ctx : f.ctx[v] = <<"act", a>>})
+              S1  == [S EXCEPT !.flows[k].ctx = [v \in DOMAIN @ |-> IF @[v] = <<"act", a>> THEN <<"act", winAct>> ELSE @[v]],
+                               !.actions[winAct].scope = @ + n]
+              pos == CHOOSE q \in 1..Len(f.actions) : f.actions[q] = a
+              S2  == [S1 EXCEPT !.flows[k].actions[pos] = winAct]
+          IN [S2 EXCEPT !.actions[a].status = "DELETED"]
 RECURSIVE Groups(_, _, _)
 Groups(S, heads, acc) ==      \* group by loop, preserving first-appearance order
   IF heads = <<>> THEN acc
@@ -537,7 +614,8 @@ ResolveGroup(S, ordered, picked, i, adv) ==
   ELSE LET kh == ordered[i] IN
        IF kh = picked THEN ResolveGroup(S, ordered, picked, i + 1, adv)
        ELSE IF ~HasH(S, kh[1], kh[2]) THEN ResolveGroup(S, ordered, picked, i + 1, adv)
-       ELSE IF SendEvent(S, kh) = SendEvent(S, picked) THEN ResolveGroup(S, ordered, picked, i + 1, Append(adv, kh))
+       ELSE IF SendEvent(S, kh) = SendEvent(S, picked)
+         THEN ResolveGroup(ShareAction(S, kh, SendAct(S, picked)), ordered, picked, i + 1, Append(adv, kh))
        ELSE IF Hd(S, kh[1], kh[2]).catch # <<>>
          THEN ResolveGroup(SetPos(S, kh[1], kh[2], LabelPos(Fl(S, kh[1]).fid, Last(Hd(S, kh[1], kh[2]).catch))), ordered, picked, i + 1, Append(adv, kh))
        ELSE ResolveGroup(AbortFlow(S, kh[1], Hd(S, kh[1], kh[2]).scores), ordered, picked, i + 1, adv)
@@ -575,13 +653,17 @@ Outer(S, act, fuel) ==
   IN IF r.adv = <<>> \/ fuel = 0 THEN r.S
      ELSE LET ad == AdvanceFront(r.S, r.adv) IN Outer(ad.S, ad.act, fuel - 1)
 ClearScores(S) == [S EXCEPT !.flows = [k \in 1..Len(@) |-> [@[k] EXCEPT !.heads = [q \in 1..Len(@) |-> [@[q] EXCEPT !.scores = <<>>]]]]]
-Run(S, ev, pick) == Outer(ClearScores([S EXCEPT !.queue = <<ev>>, !.out = <<>>, !.pick = pick]), <<>>, 50)
+DropUnreferencedActions(S) ==
+  [S EXCEPT !.actions = [a \in 1..Len(@) |-> IF \E k \in 1..Len(S.flows) : a \in Range(S.flows[k].actions) THEN @[a] ELSE [@[a] EXCEPT !.status = "DELETED"]]]
+Run(S, ev, pick) == Outer(DropUnreferencedActions(ClearScores([S EXCEPT !.queue = <<ev>>, !.out = <<>>, !.pick = pick])), <<>>, 50)
 
 (* initialize_state: the main instance, waiting at position 0 *)
 Init0 ==
-  LET S0 == [flows |-> <<>>, queue |-> <<>>, out |-> <<>>, index |-> <<>>, nuid |-> 100, pick |-> 0]
+  LET S0 == [flows |-> <<>>, actions |-> <<>>, queue |-> <<>>, out |-> <<>>, index |-> <<>>, nuid |-> 100, pick |-> 0]
       S1 == AddInstance(S0, "main", <<0>>, 1)
   IN [S1 EXCEPT !.flows[1].activated = 1, !.flows[1].loop = <<"main", 0>>]
 ExtEvent(name, args) == Ev(name, args, <<>>, "E", 0)
+(* an external action event <Name>Started / <Name>Finished for action a (ActionEvent.from_umim_event keeps action_uid among the arguments) *)
+ActionExtEvent(S, a, what) == [Ev(Act(S, a).name \o what, << <<"action_uid", <<"act", a>>>> >>, <<>>, "A", 0) EXCEPT !.act = a]
 StartMain == ExtEvent("StartFlow", << <<"flow_id", <<"s", "main">>>> >>)
 =============================================================================
